@@ -6,7 +6,7 @@ rows = []
 for d in sorted(glob.glob(os.path.join(root, "seeded", "C*-*"))):
     try: m = json.load(open(os.path.join(d, "meta.json")))
     except Exception: continue
-    cv = m.get("coordinator_verification", {}); cf = m.get("confirmed_on_repo", {})
+    cv = m.get("coordinator_verification", {}); cf = m.get("recheck") or m.get("confirmed_on_repo", {})
     rows.append((os.path.basename(d), m.get("property", "?"), m.get("summary", "").replace("|", "/")[:160], m.get("needs", "").replace("|", "/")[:160],
                  cv.get("repo_suite_with_change", "?"), f"{cv.get('demo_with_change','?')}/{cv.get('demo_without_change','?')}",
                  cf.get("check_result") or cv.get("check_result", "?"), " ".join((cf.get("signatures") or cv.get("signatures") or [])[:3]), m.get("history", "")))
